@@ -172,10 +172,27 @@ def _asdict_layers(finfo):
         k, v = [dotted(e) for e in st.target.elts]
         inner = [x for x in st.body if not (isinstance(x, ast.Expr) and (
             isinstance(x.value, ast.Constant) or cfgm.is_log_call(x.value)))]
+        body = None
+
+        def member(t):
+          neg = False
+          while isinstance(t, ast.UnaryOp) and isinstance(t.op, ast.Not):
+            t, neg = t.operand, not neg
+          m = _membership(t, k, '_declarations')
+          if m is None:
+            return None
+          return (m == 'in') != neg
         if len(inner) == 1 and isinstance(inner[0], ast.If) and \
-            _membership(inner[0].test, k, '_declarations') == 'in' and \
-            not inner[0].orelse:
-          body = [x for x in inner[0].body if not (isinstance(x, ast.Expr) and (
+            member(inner[0].test) is True and not inner[0].orelse:
+          body = inner[0].body
+        elif len(inner) >= 2 and isinstance(inner[0], ast.If) and \
+            member(inner[0].test) is False and not inner[0].orelse and \
+            len(inner[0].body) == 1 and isinstance(inner[0].body[0],
+                                                   ast.Continue):
+          # guard form: `if key not in declarations: continue`
+          body = inner[1:]
+        if body is not None:
+          body = [x for x in body if not (isinstance(x, ast.Expr) and (
               isinstance(x.value, ast.Constant) or
               cfgm.is_log_call(x.value)))]
           if len(body) == 1 and isinstance(body[0], ast.Assign) and isinstance(
